@@ -10,7 +10,8 @@ from engine.sx import SNum, SComplex, zand, _z, _real
 PROPERTY = "C16"
 BOUNDS = {
     "quick": "bilinear pattern interpolation 3x3 -> 4x4, 4x3 -> 3x5, 3x4 -> 2x2 with symbolic non-negative contents (batch of 2); Fourier image interpolation 2x2 -> 2x2, 2x2 -> 4x4, "
-             "4x4 -> 2x2 (exact DFT) with symbolic contents; source-size filter: scalar and per-axis sigma, symbolic scan samplings, 2 scan axes + optional extra ensemble axis",
+             "4x4 -> 2x2 (exact DFT) with symbolic contents; the public DiffractionPatterns.interpolate on 2x3x3 symbolic patterns for every documented way of naming the target grid "
+             "(gpts pair, gpts scalar, sampling pair, sampling scalar, 'uniform'); source-size filter: scalar and per-axis sigma, symbolic scan samplings, 2 scan axes + optional extra ensemble axis",
     "thorough": "bilinear 5x5 -> 7x6 and 6x5 -> 4x4; Fourier 2x4 -> 4x4",
 }
 OUTSIDE = ["the Gaussian filter itself (scipy.ndimage C code): commutation with detector integration is the linear-filter argument; decided here: both routes hand scipy the SAME "
@@ -41,6 +42,7 @@ def _bilinear(old, new):
         interp = MM._interpolate_bilinear(np.asarray(A).copy(), v, u, vw, uw)
         for b in range(2):
             c.assume(sum((_z(x) for x in np.asarray(interp)[b].ravel()), z3.RealVal(0)) > 0)
+        c.div_as_inv = True  # e / S becomes e * inv_S with S * inv_S == 1 (S > 0 is assumed above)
         out = MM.DiffractionPatterns._batch_interpolate_bilinear(A.copy(), new_s, samp, tuple(new))
         out = np.asarray(out, dtype=object)
         ok = [out.shape == (2,) + tuple(new)]
@@ -94,6 +96,62 @@ def R_F(old, new):
     if tuple(NEW) == tuple(OLD) and np.abs(O - A).max() > 1e-6: bad, why = True, "same grid: image changed"
     if abs(O.mean() - A.mean()) > 1e-6: bad, why = True, f"mean {A.mean()} -> {O.mean()}"
 """, OLD=tuple(old), NEW=tuple(new))
+
+
+FORMS = {"gpts_pair": {"gpts": (4, 4)}, "gpts_scalar": {"gpts": 4}, "sampling_pair": {"sampling": (0.375, 0.5)}, "sampling_scalar": {"sampling": 0.625},
+         "uniform": {"sampling": "uniform"}}
+
+
+def _public(form):
+    """the public DiffractionPatterns.interpolate for every documented way of naming the target grid"""
+    rp = R_P(form)
+
+    def fn(c):
+        old = (3, 3)
+        samp = (0.5, 0.75)  # dyadic, so that the doubles are small exact rationals
+        A = sx.sym_array(c, "a", (2,) + old, lo=0)
+        dp = MM.DiffractionPatterns(np.zeros((2,) + old, np.float32), sampling=samp, fftshift=True, ensemble_axes_metadata=[OrdinalAxis(values=(0, 1))],
+                                    metadata={"energy": 100e3})
+        dp._array = A
+        c.div_as_inv = True
+        try:
+            out = dp.interpolate(**FORMS[form])
+        except sx.Abort:
+            raise
+        except Exception as ex:  # noqa: BLE001
+            c.prove("interpolate.accepts_every_documented_target_grid", False, replay=rp, info=repr(ex)[:200])
+            return
+        c.prove("interpolate.accepts_every_documented_target_grid", True, replay=rp)
+        O = np.asarray(out.array, dtype=object)
+        new = O.shape[-2:]
+        v, u, vw, uw = MM._fourier_space_bilinear_nodes_and_weight(old, tuple(new), samp, tuple(out.sampling), np)
+        interp = MM._interpolate_bilinear(np.asarray(A).copy(), v, u, vw, uw)
+        for b in range(2):
+            c.assume(sum((_z(x) for x in np.asarray(interp)[b].ravel()), z3.RealVal(0)) > 0)
+        ok = [O.shape[0] == 2]
+        for b in range(2):
+            ok.append(sum((_z(x) for x in O[b].ravel()), z3.RealVal(0)) == sum((_z(x) for x in A[b].ravel()), z3.RealVal(0)))
+        c.prove("interpolate.total_intensity_of_each_pattern_preserved", zand(*ok), replay=rp)
+        if form.startswith("gpts"):
+            c.prove("interpolate.requested_gpts_with_the_extent_kept", zand(tuple(new) == (4, 4), *[_z(ns) * n == _z(os_) * o for ns, n, os_, o in zip(out.sampling, new, samp, old)]), replay=rp)
+        c.canary("interpolate.canary", sum((_z(x) for x in O[0].ravel()), z3.RealVal(0)) == _z(A[0].ravel()[0]))
+    return fn
+
+
+def R_P(form):
+    return make("""
+    from abtem.measurements import DiffractionPatterns
+    from abtem.core.axes import OrdinalAxis
+    rng = np.random.default_rng(0)
+    A = rng.random((2, 3, 3)).astype(np.float64) + 0.1
+    dp = DiffractionPatterns(A, sampling=(0.5, 0.75), fftshift=True, ensemble_axes_metadata=[OrdinalAxis(values=(0, 1))], metadata={'energy': 100e3})
+    try:
+        out = dp.interpolate(**KW)
+        t0 = A.sum((-2, -1)); t1 = np.asarray(out.array).sum((-2, -1))
+        if np.abs(t1 - t0).max() > 1e-6 * t0.max(): bad, why = True, f"interpolate({KW}): totals {t0} -> {t1}"
+    except Exception as ex:
+        bad, why = True, f"interpolate({KW}) raises {ex!r} although this way of giving the target grid is documented"
+""", KW=FORMS[form])
 
 
 class _Rec:
@@ -163,6 +221,8 @@ def cases(tier):
         out.append(Case(f"bilinear.{old[0]}x{old[1]}.to.{new[0]}x{new[1]}", _bilinear(old, new), setup=_setup, timeout_ms=60000, budget_s=300 if q else 1500))
     for old, new in (((2, 2), (2, 2)), ((2, 2), (4, 4)), ((4, 4), (2, 2))) if q else (((2, 2), (2, 2)), ((2, 2), (4, 4)), ((4, 4), (2, 2)), ((2, 4), (4, 4))):
         out.append(Case(f"fourier.{old[0]}x{old[1]}.to.{new[0]}x{new[1]}", _fourier(old, new), setup=_setup, budget_s=300 if q else 1500))
+    for form in FORMS:
+        out.append(Case(f"interpolate.public.{form}", _public(form), setup=_setup, timeout_ms=60000, budget_s=300 if q else 1500))
     for extra in (False, True):
         for scalar in (True, False):
             out.append(Case(f"source_size.{'extra_axis.' if extra else ''}{'scalar' if scalar else 'per_axis'}", _source_size(extra, scalar), setup=_setup))
